@@ -78,6 +78,11 @@ fn main() {
             println!("input bytes: {:?}", i2);
             0
         }
+        "dbg-probe" => {
+            let v: serde_json::Value = serde_json::from_str(&std::fs::read_to_string(&args[3]).unwrap()).unwrap();
+            props::c11::debug_probe(&v["case"]);
+            0
+        }
         "dbg-rows" => {
             let v: serde_json::Value = serde_json::from_str(&std::fs::read_to_string(&args[3]).unwrap()).unwrap();
             let c = &v["detail"]["case"];
